@@ -32,6 +32,11 @@ def check(tier, seed):
             meta.append((s, 'pure', f"gen:{xi.hex()}", m, c, r, 10 ** 6 + len(meta)))
             jobs.append(('sign', s, sk, m, c, 'sha512', r))
             meta.append((s, 'sha512', f"bytes:{sk.hex()}", m, c, r, 10 ** 6 + len(meta)))
+        # one honest signature per Decompose bucket edge (2k+1) gamma2 of w - c s2 + c t0 (corpus): where a rounding constant or reciprocal
+        # that is one bit short in Decompose / MakeHint first goes wrong
+        for tag, xi, sk, pk, m in fam.bucket_edge_cases(s):
+            jobs.append(('sign', s, sk, m, b'', 'pure', bytes(32)))
+            meta.append((s, 'pure', f"gen:{xi.hex()}", m, b'', bytes(32), 10 ** 6 + len(meta)))
         # accepted keys key generation never returns: t0 at the ends of its range, where line 28's ||c t0|| >= gamma2 test fires
         for tag, skx, m, c, r in fam.extremal_t0_cases(s):
             for mode in ('pure', 'sha256'):
